@@ -144,7 +144,24 @@ def one_history(col: Collector, rng, index: int):
             from cascade.executor.msg import DatasetPublished as DP
             budget_ns = (comms.max_retries_per_message + 3) * grace_ms * 10**6
             rounds = int(budget_ns / (250 * 10**6)) + 20
+            # in some of these histories ONE message is undeliverable (every transmission of it is dropped) while everything else gets
+            # through and is acknowledged: the sender must still give up on it within its retry budget, not retry for ever
+            blackhole = [None]
+            if rng.random() < 0.4:
+                inner_plan = net.plan
+
+                def plan_bh(kind, address, m0):
+                    if kind == "data" and address != w.caddr and blackhole[0] is None and getattr(m0, "idx", None) is not None and w.clock.ns > 0 and bh_armed[0]:
+                        blackhole[0] = m0.idx
+                    if kind == "data" and address != w.caddr and blackhole[0] is not None and m0.idx == blackhole[0]:
+                        decisions.append("B")
+                        return []
+                    return inner_plan(kind, address, m0)
+                bh_armed = [False]
+                net.plan = plan_bh
             for r_ in range(rounds):
+                if blackhole[0] is None and "bh_armed" in dir() and r_ == 2:
+                    bh_armed[0] = True
                 if w.raised["c2e"] is not None or w.ex.terminating:
                     break
                 w.inject_local(DP(origin=WorkerId("h0", "w0"), ds=DatasetId(f"busy-e{r_}", "0"), transmit_idx=None))
@@ -159,6 +176,17 @@ def one_history(col: Collector, rng, index: int):
                 col.count("busy_rounds")
             col.count("histories_busy")
             wit_b = {"plan": plan_class, "p_loss": p_loss, "net_log": net.log[-60:], "stats": dict(net.stats)}
+            if blackhole[0] is not None:
+                col.count("histories_with_one_undeliverable_message")
+                if w.raised["c2e"] is None and blackhole[0] in w.bridge.sender.inflight:
+                    r = w.bridge.sender.inflight[blackhole[0]]
+                    col.violation("undeliverable-message-retried-without-bound:controller->executor",
+                                  f"every transmission of message #{blackhole[0]} ({r.clazz}) was dropped for {rounds * 0.25:.0f} virtual s (retry budget {comms.max_retries_per_message} x {grace_ms} ms) while other messages to the "
+                                  f"same host were delivered and acknowledged: the sender is still retrying (retries left {r.remaining}) and has not raised", wit_b, index)
+                    return
+                if w.raised["c2e"] is not None:
+                    col.count("sender_raises_observed")
+                    return      # gave up on the undeliverable message, as it must; the history ends here
             for direction, sender, gone in (("controller->executor", w.bridge.sender, w.raised["c2e"] is not None), ("executor->controller", w.ex.sender, w.ex.terminating or w.raised["e2c"] is not None)):
                 stale = [(i, r) for i, r in sender.inflight.items() if w.clock.ns - r.at > budget_ns]
                 if stale and not gone:
